@@ -218,6 +218,12 @@ func (m *SignMessage[T]) UnmarshalCBOR(data []byte) error {
 		return err
 	}
 
+	for _, sig := range mm.Signatures {
+		if sig == nil {
+			return errors.New("cose/cose: SignMessage.UnmarshalCBOR: nil Signature")
+		}
+	}
+
 	if m.Protected, err = HeadersFromBytes(mm.Protected); err != nil {
 		return err
 	}
